@@ -6,6 +6,7 @@ import ZygoVerif.Model.SQ
 import ZygoVerif.Model.MacroCall
 import ZygoVerif.Spec.Subst
 import ZygoVerif.Driver.Proto
+import ZygoVerif.Generated.SQCtx
 namespace ZygoVerif.Driver.Sq
 open ZygoVerif.SQ ZygoVerif.Subst
 
@@ -150,6 +151,63 @@ def splitAt (toks : List String) : List String × List String :=
 
 def wrap7 (v : Sexp) : Sexp := mkList [.atom (.int 7), v, .atom (.int 8)]
 
+/-! ### `sq h`: one template evaluated k times, earlier results mutated in place -/
+
+/-- the mutation the harness applies after evaluation `i` (1-based): `(aset c 0 <770+i>)` on a
+non-empty array, `(hset c zz <770+i>)` on a hash -/
+def mutationOf (i : Nat) : Mutation where
+  arr := fun xs => match xs with
+    | [] => []
+    | _ :: r => .atom (.int (770 + i)) :: r
+  hash := fun h => match h with
+    | .hash ty flat =>
+      match (listToArray flat).bind pairVals with
+      | some ps => .hash ty (mkList ((hashSet ps (.atom (.sym "zz")) (.atom (.int (770 + i)))).flatMap (fun p => [p.1, p.2])))
+      | none => h
+    | _ => h
+
+/-! ### `sq k`: a macro call in its context against the expansion written by hand -/
+
+/-- replace the symbol HOLE -/
+partial def fill (w : Sexp) : Sexp → Sexp
+  | .atom (.sym "HOLE") => w
+  | .cons h t => .cons (fill w h) (fill w t)
+  | .arr xs => .arr (fill w xs)
+  | s => s
+
+/-- the listing as VerifCtxListing prints it; loops are numbered in order of appearance -/
+def showKI (code : List KI) : String :=
+  let step := fun (acc : List String × List Nat) (i : KI) =>
+    let (out, seen) := acc
+    let ord := fun (id : Nat) (seen : List Nat) =>
+      match seen.idxOf? id with
+      | some k => (k, seen)
+      | none => (seen.length, seen ++ [id])
+    match i with
+    | .addScope => (out ++ ["A"], seen)
+    | .remScope => (out ++ ["R"], seen)
+    | .loopStart id => let (k, sn) := ord id seen; (out ++ [s!"L{k}"], sn)
+    | .brk id p => let (k, sn) := ord id seen; (out ++ [s!"B{k}.{p}"], sn)
+    | .cont id p => let (k, sn) := ord id seen; (out ++ [s!"C{k}.{p}"], sn)
+    | .prepCall n => (out ++ [s!"P{n}"], seen)
+    | .goto0 => (out ++ ["G"], seen)
+    | .callX f n => (out ++ [s!"X:{f}/{n}"], seen)
+    | .fnOpen => (out ++ ["F["], seen)
+    | .fnClose => (out ++ ["]"], seen)
+  " ".intercalate (code.foldl step ([], [])).1
+
+/-- `( ( s:name [ s:p0 … ] T ) … )` -/
+def macroTable (defs : PT) : Option (List (String × Macro)) :=
+  match defs with
+  | .list ms none => ms.mapM (fun m =>
+      match m with
+      | .list [.lit (.sym name), .arr ps, body] none =>
+        body.toTmpl?.map (fun t => (name, { params := (List.range ps.length).map (fun k => s!"z{k}"), body := t.toSexp }))
+      | _ => none)
+  | _ => none
+
+def builtinNames : List String := ["zztick", "list", "+", "-", "*", "<", ">", "==", "println", "not"]
+
 def handle (toks : List String) : String :=
   match toks with
   | "t" :: _mode :: wrap :: rest =>
@@ -211,6 +269,74 @@ def handle (toks : List String) : String :=
         | none => "err"
       s!"{m}\t{s}"
     | _, _, _ => "bad-op\t-"
-  | _ => "bad-op\t-"
+  | "h" :: _route :: n :: rest =>
+    let (tt, et) := splitAt rest
+    match parseT tt, parseTable et true, n.toNat? with
+    | some (pt, []), some tab, some k =>
+      let H := hostOf tab
+      let idx := (List.range k).map (· + 1)
+      let line := fun (rs fs : List Sexp) =>
+        s!"ok {" // ".intercalate (rs.map render)} ;; {" // ".intercalate (fs.map render)}"
+      let form := match pt.toTmpl? with
+        | some t => t.toSexp
+        | none => pt.toSexp
+      let specHist := pt.toTmpl?.bind (fun t => history (bindingOf tab) (idx.map mutationOf) t)
+      -- model: the same code run k times on the stack machine; by `sq_result_fresh` /
+      -- `sq_code_pushes_no_container` every container of a result outside the unquoted values
+      -- was allocated by that run, so a mutation of one result shows in that result only
+      let m := match evalOn H (genTop H form) [] with
+        | some (v, _) =>
+          let rs := idx.map (fun _ => v)
+          match specHist with
+          | some (v' :: _, fs) => if v' = v then line rs fs else line rs rs
+          | _ => line rs rs
+        | none => "err"
+      let s := match pt.toTmpl? with
+        | none => "-"
+        | some _ => match specHist with
+          | some (rs, fs) => line rs fs
+          | none => "err"
+      s!"{m}\t{s}"
+    | _, _, _ => "bad-op\t-"
+  | op :: rest =>
+    if op != "k" && op != "kc" then "bad-op\t-" else
+    match parseT rest with
+    | some (defs, r1) =>
+      match parseT r1 with
+      | some (.list argPTs none, r2) =>
+        match parseT r2, macroTable defs with
+        | some (.list progPTs none, []), some ((name, mac) :: more) =>
+          let tab := (name, mac) :: more
+          let E : CEnv := { mkHash := mkHashD, macros := fun f => (tab.find? (fun p => p.1 == f)).map (·.2),
+                            builtin := fun f => builtinNames.contains f,
+                            scanExpansions := Generated.SQCtx.rebindScansExpansions }
+          let args := argPTs.map PT.toSexp
+          let prog := progPTs.map PT.toSexp
+          let call := Sexp.cons (.atom (.sym name)) (mkList args)
+          let listing := fun (w : Sexp) => match genProgram E 200 (prog.map (fill w)) with
+            | some code => some (showKI code)
+            | none => none
+          let show? := fun (o : Option String) => match o with | some l => l | none => "err"
+          let lm := listing call
+          if op == "kc" then
+            -- the model generator's context listing of the program with the macro call
+            s!"kc ctx= {show? lm}\t-"
+          else
+          -- spec: substitution of the argument forms for the parameters, written into the program by hand
+          let tmpl := (match defs with
+            | .list (.list [_, _, body] none :: _) none => body.toTmpl?
+            | _ => none)
+          let paramTab : Table := args.map (fun a => (true, some a))
+          let byHand := if args.length ≠ mac.params.length then none else tmpl.bind (subst (bindingOf paramTab))
+          match byHand with
+          | none => s!"k noexp {if lm.isSome then "ok" else "err"}\tk noexp err"
+          | some x =>
+            -- model: the two programs compile to the same context listing (`macro_call_in_context`)
+            let same := if lm == listing x then "k eq code=eq ctx=eq dep=ok" else "k ne:model code=ne ctx=ne dep=ok"
+            s!"{same}\tk eq code=eq ctx=eq dep=ok"
+        | _, _ => "bad-op\t-"
+      | _ => "bad-op\t-"
+    | none => "bad-op\t-"
+  | [] => "bad-op\t-"
 
 end ZygoVerif.Driver.Sq
